@@ -23,14 +23,17 @@ Inductive ba_reply := BaApprove | BaPending | BaSlowDown | BaDeny | BaFail.
 
 Record tresp := mkTResp {
   tr_at : id; tr_rt : id; tr_idt : bool; tr_scope : string; tr_dpop : bool;
-  tr_jkt : id; tr_x5t : id          (* cnf of the grant just written, as introspection would report it *)
+  tr_jkt : id; tr_x5t : id;         (* cnf of the grant just written, as introspection would report it *)
+  tr_res : list string;             (* the `resources` member of the response *)
+  tr_aud : list string              (* the `aud` claim of a JWT access token ([] for an opaque one) *)
 }.
 
 Record intro := mkIntro {
   in_active : bool; in_refresh : bool; in_scope : string; in_client : id; in_sub : string;
-  in_exp : Z; in_jkt : id; in_x5t : id; in_grant : id
+  in_exp : Z; in_jkt : id; in_x5t : id; in_grant : id;
+  in_aud : list string              (* ResourceAudiences, `aud` *)
 }.
-Definition inactive : intro := mkIntro false false "" 0 "" 0%Z 0 0 0.
+Definition inactive : intro := mkIntro false false "" 0 "" 0%Z 0 0 0 [].
 
 Record nav := mkNav {
   n_code : id; n_at : id; n_idt : bool; n_state : string; n_err : option ecode; n_dpop : bool
@@ -90,9 +93,24 @@ Definition should_issue_refresh (cfg : config) (c : client) (gt : grant_type) : 
   andb (cf_issue_refresh cfg) (andb (has_grant GRefreshToken (c_grants c)) (negb (gt_eqb gt GClientCredentials))).
 
 Definition new_grant (n : nat) (now : Z) (cfg : config) (tokid : id) (gt : grant_type)
-  (sub : string) (cid : id) (active granted : string) (jkt x5t : id) : gsession :=
+  (sub : string) (cid : id) (active granted : string) (jkt x5t : id) (active_res granted_res : list string) : gsession :=
   mkGSession (mint n KGrantId) tokid 0 (now + cf_token_lifetime cfg)%Z (now + cf_token_lifetime cfg)%Z 0
-             gt sub cid active granted jkt x5t.
+             gt sub cid active granted jkt x5t active_res granted_res.
+
+(* token.validateResources: every requested resource is among the available ones *)
+Definition validate_resources (cfg : config) (available requested : list string) : bool :=
+  orb (negb (cf_resource_enabled cfg)) (subset requested available).
+
+(* authorizationCodeGrantInfo / cibaGrantInfo: active and granted resources of a grant made from a session *)
+Definition grant_active_res (cfg : config) (granted requested : list string) : list string :=
+  if cf_resource_enabled cfg then (if no_res requested then granted else requested) else [].
+Definition grant_granted_res (cfg : config) (granted : list string) : list string :=
+  if cf_resource_enabled cfg then granted else [].
+
+(* the `resources` member of a token response: the active resources unless they are what the
+   authorization request asked for *)
+Definition resources_out (cfg : config) (active requested_at_authz : list string) : list string :=
+  if andb (cf_resource_enabled cfg) (negb (res_eqb active requested_at_authz)) then active else [].
 
 Definition with_refresh (n : nat) (now : Z) (cfg : config) (c : client) (g : gsession) : gsession :=
   if should_issue_refresh cfg c (g_type g)
@@ -112,7 +130,8 @@ Record treq := mkTReq {
   t_verifier : pk;
   t_auth_req : id;
   t_hg : hg_reply;
-  t_ba : ba_reply
+  t_ba : ba_reply;
+  t_resources : list string         (* the `resource` form parameters *)
 }.
 
 (* token.validatePkce / isPKCEValid *)
@@ -129,8 +148,11 @@ Definition validate_pkce (cfg : config) (verifier : pk) (s : asession) : option 
           (negb (is_pkce_valid verifier (p_challenge (a_params s)) m)) then Some EInvalidGrant else
   None.
 
-Definition tokens_out (cfg : config) (at_ : id) (g : gsession) (rt : id) (scope : string) : out :=
-  OTokens (mkTResp at_ rt (contains_openid (g_active g)) scope (negb (is_nil (g_jkt g))) (g_jkt g) (g_x5t g)).
+(* Make: a JWT access token carries aud = ActiveResources *)
+Definition jwt_aud (c : client) (gt : grant_type) (active_res : list string) : list string :=
+  if token_is_jwt c gt then active_res else [].
+Definition tokens_out (cfg : config) (at_ : id) (g : gsession) (rt : id) (scope : string) (res aud : list string) : out :=
+  OTokens (mkTResp at_ rt (contains_openid (g_active g)) scope (negb (is_nil (g_jkt g))) (g_jkt g) (g_x5t g) res aud).
 
 (* ---- grant_type=authorization_code ---- *)
 Definition code_grant (w : world) (n : nat) (now : Z) (r : treq) : prog out :=
@@ -161,20 +183,24 @@ Definition code_grant (w : world) (n : nat) (now : Z) (r : treq) : prog out :=
           match validate_pkce cfg (t_verifier r) s with
           | Some e => Ret (OErr e)
           | None =>
+            if negb (validate_resources cfg (a_granted_res s) (t_resources r)) then Ret (OErr EInvalidTarget) else
             if negb (contains_all_scopes (a_granted s) (t_scope r)) then Ret (OErr EInvalidScope) else
             let active := if is_empty (t_scope r) then a_granted s else t_scope r in
+            let ares := grant_active_res cfg (a_granted_res s) (t_resources r) in
+            let gres := grant_granted_res cfg (a_granted_res s) in
             match hg_result (t_hg r) with
             | Some e => Ret (OErr e)
             | None =>
               let '(tv, tid) := make_token n c GAuthorizationCode in
               let g0 := new_grant n now cfg tid GAuthorizationCode (a_subject s) (a_client s)
-                          active (a_granted s) (set_pop_jkt cfg (t_bind r)) (set_pop_x5t cfg (t_bind r)) in
+                          active (a_granted s) (set_pop_jkt cfg (t_bind r)) (set_pop_x5t cfg (t_bind r)) ares gres in
               let g := with_refresh n now cfg c (g0 <| g_code := a_code s |>) in
               Do (GSave g) (fun rs =>
               match rs with
               | RFail => Ret (OErr EInternalError)
               | _ => Ret (tokens_out cfg tv g (g_refresh g)
-                            (if seqb active (p_scopes (a_params s)) then "" else active))
+                            (if seqb active (p_scopes (a_params s)) then "" else active)
+                            (resources_out cfg ares (p_resources (a_params s))) (jwt_aud c GAuthorizationCode ares))
               end)
             end
           end
@@ -212,7 +238,12 @@ Definition refresh_grant (w : world) (n : nat) (now : Z) (r : treq) : prog out :
       | Some e => Ret (OErr e)
       | None =>
         if negb (contains_all_scopes (g_granted g) (t_scope r)) then Ret (OErr EInvalidScope) else
+        if negb (validate_resources cfg (g_granted_res g) (t_resources r)) then Ret (OErr EInvalidTarget) else
         let active := if is_empty (t_scope r) then g_granted g else t_scope r in
+        (* updateRefreshTokenGrantInfo: untouched when resource indicators are off *)
+        let ares := if cf_resource_enabled cfg
+                    then (if no_res (t_resources r) then g_granted_res g else t_resources r)
+                    else g_active_res g in
         match hg_result (t_hg r) with
         | Some e => Ret (OErr e)
         | None =>
@@ -222,15 +253,14 @@ Definition refresh_grant (w : world) (n : nat) (now : Z) (r : treq) : prog out :
                       | None => g_jkt g end in
           let x5t' := if andb (negb (is_nil (g_x5t g))) (negb (is_nil (b_cert (t_bind r))))
                       then b_cert (t_bind r) else g_x5t g in
-          let g' := g <| g_type := GRefreshToken |> <| g_active := active |>
-                      <| g_last_exp := (now + cf_token_lifetime cfg)%Z |> <| g_token := tid |>
-                      <| g_refresh := if cf_refresh_rotation cfg then mint n KRefresh else g_refresh g |>
-                      <| g_jkt := jkt' |> <| g_x5t := x5t' |> in
+          let g' := mkGSession (g_id g) tid (if cf_refresh_rotation cfg then mint n KRefresh else g_refresh g)
+                      (now + cf_token_lifetime cfg)%Z (g_expires g) (g_code g) GRefreshToken (g_subject g) (g_client g)
+                      active (g_granted g) jkt' x5t' ares (g_granted_res g) in
           Touch (OG g')
           (Do (GSave g') (fun rs =>
            match rs with
            | RFail => Ret (OErr EInternalError)
-           | _ => Ret (tokens_out cfg tv g' (if cf_refresh_rotation cfg then g_refresh g' else 0%N) "")
+           | _ => Ret (tokens_out cfg tv g' (if cf_refresh_rotation cfg then g_refresh g' else 0%N) "" [] (jwt_aud c GRefreshToken ares))
            end))
         end
       end
@@ -251,16 +281,19 @@ Definition cc_grant (w : world) (n : nat) (now : Z) (r : treq) : prog out :=
     | Some e => Ret (OErr e)
     | None =>
       if negb (are_scopes_allowed (c_scopes c) (cf_scopes cfg) (t_scope r)) then Ret (OErr EInvalidScope) else
+      if negb (validate_resources cfg (cf_resources cfg) (t_resources r)) then Ret (OErr EInvalidTarget) else
+      (* clientCredentialsGrantInfo: granted = active = requested *)
+      let res := if cf_resource_enabled cfg then t_resources r else [] in
       match hg_result (t_hg r) with
       | Some e => Ret (OErr e)
       | None =>
         let '(tv, tid) := make_token n c GClientCredentials in
         let g := new_grant n now cfg tid GClientCredentials (cname (c_id c)) (c_id c) (t_scope r) (t_scope r)
-                   (set_pop_jkt cfg (t_bind r)) (set_pop_x5t cfg (t_bind r)) in
+                   (set_pop_jkt cfg (t_bind r)) (set_pop_x5t cfg (t_bind r)) res res in
         Do (GSave g) (fun rs =>
         match rs with
         | RFail => Ret (OErr EInternalError)
-        | _ => Ret (tokens_out cfg tv (g <| g_active := "" |>) 0 "")   (* no id token for this grant *)
+        | _ => Ret (tokens_out cfg tv (g <| g_active := "" |>) 0 "" [] (jwt_aud c GClientCredentials res))   (* no id token for this grant *)
         end)
       end
     end
@@ -288,20 +321,24 @@ Definition ciba_grant (w : world) (n : nat) (now : Z) (r : treq) : prog out :=
         | Some e => Ret (OErr e)
         | None =>
           let continue_ :=
+            if negb (validate_resources cfg (a_granted_res s) (t_resources r)) then Ret (OErr EInvalidTarget) else
             if negb (contains_all_scopes (a_granted s) (t_scope r)) then Ret (OErr EInvalidScope) else
             let active := if is_empty (t_scope r) then a_granted s else t_scope r in
+            let ares := grant_active_res cfg (a_granted_res s) (t_resources r) in
+            let gres := grant_granted_res cfg (a_granted_res s) in
             match hg_result (t_hg r) with
             | Some e => Ret (OErr e)
             | None =>
               let '(tv, tid) := make_token n c GCiba in
               let g := with_refresh n now cfg c
                          (new_grant n now cfg tid GCiba (a_subject s) (a_client s) active (a_granted s)
-                            (set_pop_jkt cfg (t_bind r)) (set_pop_x5t cfg (t_bind r))) in
+                            (set_pop_jkt cfg (t_bind r)) (set_pop_x5t cfg (t_bind r)) ares gres) in
               Do (GSave g) (fun rs =>
               match rs with
               | RFail => Ret (OErr EInternalError)
               | _ => Ret (tokens_out cfg tv g (g_refresh g)
-                            (if seqb active (p_scopes (a_params s)) then "" else active))
+                            (if seqb active (p_scopes (a_params s)) then "" else active)
+                            (resources_out cfg ares (p_resources (a_params s))) (jwt_aud c GCiba ares))
               end)
             end in
           match t_ba r with
@@ -354,7 +391,8 @@ Definition introspection_info (now : Z) (p : ptok) : prog intro :=
       match rp with
       | RGSess g =>
           if geb now (g_last_exp g) then Ret inactive else
-          Ret (mkIntro true false (g_active g) (g_client g) (g_subject g) (g_last_exp g) (g_jkt g) (g_x5t g) (g_id g))
+          Ret (mkIntro true false (g_active g) (g_client g) (g_subject g) (g_last_exp g) (g_jkt g) (g_x5t g) (g_id g)
+                       (g_active_res g))
       | _ => Ret inactive
       end)
   | LByRefresh i =>
@@ -362,7 +400,8 @@ Definition introspection_info (now : Z) (p : ptok) : prog intro :=
       match rp with
       | RGSess g =>
           if geb now (g_expires g) then Ret inactive else
-          Ret (mkIntro true true (g_granted g) (g_client g) (g_subject g) (g_expires g) (g_jkt g) (g_x5t g) (g_id g))
+          Ret (mkIntro true true (g_granted g) (g_client g) (g_subject g) (g_expires g) (g_jkt g) (g_x5t g) (g_id g)
+                       (g_granted_res g))
       | _ => Ret inactive
       end)
   end.
